@@ -450,7 +450,29 @@ def unreleased_paths(u, fr, T, fields):
             v = guards.lookup(facts, "%s->%s" % (p0, f_))
             if v in (0, -1):
                 continue
+            # ... or known invalid through a state flag of the object: a flag g that is only ever raised together with the
+            # invalidation of the field (`closed = TRUE; fd = -1;` in one block) and tests true on this path
+            if any(fk.startswith(p0 + "->") and ((fop == "!=" and fv == 0) or (fop == "==" and fv not in (0, -1) and isinstance(fv, int)))
+                   and invalidates(fk[len(p0) + 2:], f_) for (fk, fop, fv) in facts):
+                continue
             out[f_] = ln
+
+    inv_memo = {}
+
+    def invalidates(g, f_):
+        if (g, f_) in inv_memo:
+            return inv_memo[(g, f_)]
+        raised = 0
+        ok_ = True
+        for fx in u.functions.values():
+            for bx in fx.blocks.values():
+                sts_ = [n for s_ in bx.stmts for n in walk(s_) if n["k"] == "asg" and n.get("op") == "=" and strip_casts(n["l"]) is not None and strip_casts(n["l"])["k"] == "member"]
+                if any(strip_casts(n["l"])["field"] == g and cv(n["r"]) not in (None, 0) for n in sts_):
+                    raised += 1
+                    if not any(strip_casts(n["l"])["field"] == f_ and cv(n["r"]) in (0, -1) for n in sts_):
+                        ok_ = False
+        inv_memo[(g, f_)] = ok_ and raised > 0
+        return inv_memo[(g, f_)]
 
     def on_edge(st, b, to, on):
         f2 = guards.edge_assume(st[0], b, on)
